@@ -9,6 +9,7 @@
    Status of each clause of the property:   full = proved as stated;  refuted = false of the faithful model, witness
    replayed on the C code (finding);  partial = proved for the stated sub-case, the missing part is spelled out. *)
 From Coq Require Import List NArith ZArith Bool Permutation.
+From PM Require Proofs.ReplyRanges.
 From PM Require Import Base.Bytes Base.Outcome Gen.GenHL Model.HL Spec.HLSpec Proofs.HLArith Proofs.HLProofs
   Proofs.HLIndex Proofs.HLFind Proofs.HLCor Proofs.HLRound Proofs.HLSort Proofs.HLIter Proofs.HLClosure.
 Import ListNotations.
@@ -311,3 +312,17 @@ Example C14_create_saturated_bound :
   /\ omap (option_map expand) (create (bs "t[99999999999999999999]-ib"%string)) = Ok (Some [bs "t18446744073709551615-ib"%string]).
 Proof. split; vm_compute; reflexivity. Qed.
 Print Assumptions C14_create_no_hang.
+
+(* "Hence the targets typed at the CLI, the targets the daemon acts on and the node sets printed in replies always denote the
+   same nodes": the node set of a reply line (every name pushed, hostlist_sort, ranged string - what client.c prints in
+   302 / 303-unknown / 304 / 306 lines), re-read with hostlist_create, is exactly the multiset of names it was built from.
+   (Used by C03 "-x and compressed output agree" and C15 "node sets inside replies are well-formed host ranges".) *)
+Theorem C14_reply_sets : forall l txt, Forall (fun n => legal n = true) l ->
+  (N.of_nat (length l) <= GenHL.MAX_RANGE)%N -> (N.of_nat (length l) <= GenHL.RANGES_LEN_ARG)%N ->
+  ReplyRanges.hl_ranged_sorted l = Ok txt ->
+  exists h', create txt = Ok (Some h') /\ Permutation (expand h') l /\ wf h'.
+Proof. exact ReplyRanges.reply_set_denotes. Qed.
+Example C14_reply_sets_nonvacuous :
+  ReplyRanges.hl_ranged_sorted [bs "t3"%string; bs "t1"%string; bs "foo"%string; bs "t2"%string] = Ok (bs "foo,t[1-3]"%string).
+Proof. vm_compute. reflexivity. Qed.
+Print Assumptions C14_reply_sets.
